@@ -6,7 +6,7 @@ import itertools
 import random
 
 LEVEL = "model_checking"
-RULE = ("sessions = every ordered pair (quick) / a large sample of triples (thorough) of calls from a catalogue of 26 "
+RULE = ("sessions = every ordered pair (quick) / a large sample of triples (thorough) of calls from a catalogue of 31 "
         "public calls (scalar and vector, simple and face-connected grids, multi-axis with mapping arguments, metric-aware "
         "operators, pad, apply_as_grid_ufunc, transform with anonymous target_data, constructors given mapping arguments, "
         "calls that raise) on ONE set of argument objects; each call logs sha1 digests of every argument object, of the "
@@ -24,6 +24,7 @@ def digest(obj):
         if isinstance(o, xr.DataArray):
             h.update(b"DA")
             h.update(repr((o.dims, o.shape, str(o.dtype), o.name)).encode())
+            h.update(repr(("lazy", o.chunks)).encode())           # an in-memory array must not come back dask-backed
             h.update(np.ascontiguousarray(np.asarray(o.values)).tobytes())
             h.update(repr(sorted(o.attrs.items())).encode())
             for c in sorted(o.coords):
@@ -106,7 +107,16 @@ def fixture():
                              "xg": ("xg", np.arange(nx) * 1.0, {"axis": "X", "c_grid_axis_shift": "-0.5"}),
                              "zc": ("zc", np.arange(3) + 0.5, {"axis": "Z"}),
                              "zo": ("zo", np.arange(4) * 1.0, {"axis": "Z", "c_grid_axis_shift": [-0.5]})})
+    # a grid whose registered metric has a missing value (a land cell) at the array's own position
+    dsn = xr.Dataset(coords={"xc": ("xc", np.arange(nx) + 0.5), "xl": ("xl", np.arange(nx) * 1.0)})
+    dsn["dxn_c"] = ("xc", np.array([1.0, np.nan, 2.0, 4.0]))
+    dsn["dxn_l"] = ("xl", np.array([1.0, 3.0, 2.0, 4.0]))
+    GN = xgcm.Grid(dsn, coords={"X": {"center": "xc", "left": "xl"}}, periodic=False, autoparse_metadata=False,
+                   metrics={("X",): ["dxn_c", "dxn_l"]})
+    dan = xr.DataArray(np.array([3.0, 1.0, 4.0, 1.0]), dims=("xc",), name="tn")
+    u_lazy = u.chunk({"face": 1})
     objs = {
+        "dsn": dsn, "dan": dan, "u_lazy": u_lazy, "vecdict_lazy": {"X": u_lazy}, "other_mem": {"Y": v},
         "dsc": dsc,
         "da": da, "dal": dal, "ds": ds, "dsf": dsf, "dsz": dsz, "u": u, "v": v, "sc": sc, "daz": daz, "tdata": tdata, "tdata_o": tdata_o,
         "vecdict": {"X": u}, "other": {"Y": v}, "vec2": {"X": u, "Y": v}, "vecplain": {"X": dal}, "otherplain": {"Y": dal},
@@ -118,7 +128,7 @@ def fixture():
         "c_fc": {"face": {0: {"X": (None, (1, "Y", False))}, 1: {"Y": ((0, "X", False), None)}}},
         "c_fcoords": {"X": {"center": "x", "left": "xg"}, "Y": {"center": "y", "left": "yg"}},
     }
-    return {"G": G, "F": F, "Z": Z, "objs": objs}
+    return {"G": G, "F": F, "Z": Z, "GN": GN, "objs": objs}
 
 
 def _stencil3(a):
@@ -187,6 +197,15 @@ def catalogue():
         "vec_plain": lambda e: e["G"].diff(e["objs"]["vecplain"], "X", other_component=e["objs"]["otherplain"]),
         "transform_linear": lambda e: e["Z"].transform(e["objs"]["daz"], "Z", e["objs"]["target"], target_data=e["objs"]["tdata"]),
         "transform_cons": lambda e: e["Z"].transform(e["objs"]["daz"], "Z", e["objs"]["bins"], target_data=e["objs"]["tdata_o"], method="conservative"),
+        # a call that carries its own rule and fill value and is refused on its SECOND axis (Y has no outer position)
+        "raise_late_with_options": lambda e: e["G"].diff(e["objs"]["da"], ["X", "Y"], to={"X": "left", "Y": "outer"}, boundary="extend",
+                                                          fill_value=5.0),
+        # metric-aware calls on the grid whose metric holds a missing value (answered or refused, nothing may be written)
+        "average_nan_metric": lambda e: e["GN"].average(e["objs"]["dan"], "X"),
+        "derivative_nan_metric": lambda e: e["GN"].derivative(e["objs"]["dan"], "X"),
+        "integrate_nan_metric": lambda e: e["GN"].integrate(e["objs"]["dan"], "X"),
+        # a lazy component next to an in-memory partner
+        "vec_lazy_mem": lambda e: e["F"].diff(e["objs"]["vecdict_lazy"], "X", other_component=e["objs"]["other_mem"]),
         "raise_same_pos": lambda e: e["G"].diff(e["objs"]["da"], "X", to="center", boundary=e["objs"]["bdict"]),
         "raise_axis": lambda e: e["G"].interp(e["objs"]["da"], ["X", "Q"], to=e["objs"]["todict"]),
         "ctor": ctor,
@@ -211,11 +230,14 @@ def result_digest(fn, env):
 
 def snapshot(env):
     objs = sorted((k, digest(v)) for k, v in env["objs"].items())
-    settings = [grid_settings(env[g]) for g in ("G", "F", "Z")]
+    settings = [grid_settings(env[g]) for g in ("G", "F", "Z", "GN")]
     return [list(x) for x in objs], settings
 
 
 def run_session(job):
+    import dask
+
+    dask.config.set(scheduler="synchronous")          # forked workers: no thread pools
     sid, seq, refs = job
     C = catalogue()
     env = fixture()
@@ -230,6 +252,9 @@ def run_session(job):
 
 
 def reference(_):
+    import dask
+
+    dask.config.set(scheduler="synchronous")
     C = catalogue()
     return {cid: result_digest(fn, fixture()) for cid, fn in C.items()}
 
